@@ -80,6 +80,6 @@ Definition w_services_hist : list hstep :=
   [(OAddNode (S "n1") (Some (S "a")) (S "VM"), [], []); (OAddNode (S "n2") (Some (S "b")) (S "VM"), [], []);
    (ONodeAddNS (S "a") (S "sv") (Some (S "s1")) (S "OVS"), [], []); (ONodeAddNS (S "b") (S "sv") (Some (S "s2")) (S "OVS"), [], [])].
 Lemma view_services_refuted :
-  let g := run_hist false empty_graph w_services_hist in
+  let g := run_hist false flags_off empty_graph w_services_hist in
   WF g /\ length (view_services g) <> length (of_class KNS g).
 Proof. split; [apply wf_b_reflect; vm_compute; reflexivity | vm_compute; discriminate]. Qed.
